@@ -774,6 +774,30 @@ func (c *c30Child) caseMix(k int) {
 	}
 	okAll := c.alive("mix", o.pc, a.pc)
 	if connected && okAll {
+		// second round with the roles swapped: the former answerer re-offers (it keeps the mids it learned from the
+		// Plan-B side), the former offerer answers — the answer of a Plan-B peer lists all its tracks in one section
+		cur["stage"] = "reverse re-offer"
+		c.setCur(cur)
+		c.setPos(2)
+		err2, ok := c.call("reverse-exchange", func() error {
+			_, _, e := rigExchange(a.pc, o.pc, nil, func(s string) string {
+				cur["reverse_answer_received_by_first_answerer"] = s
+				c.setCur(cur)
+
+				return s
+			})
+
+			return e
+		})
+		okAll = ok
+		c.Seen("mix_outcome", fmt.Sprintf("%s: reverse-exchange=%s", mv.Name, c30ErrClassShort(err2)))
+		for i := 0; i < 5 && okAll; i++ {
+			o.sendMedia(2)
+			a.sendMedia(2)
+			time.Sleep(2 * time.Millisecond)
+		}
+	}
+	if connected && okAll {
 		c30SoftDrain(o.pc, 200*time.Millisecond)
 		c30SoftDrain(a.pc, 200*time.Millisecond)
 	}
